@@ -213,8 +213,16 @@ package socket
 // for the connection: addrID is uninterpreted)
 //@ spec fn addrID(s *socket) string
 //@ spec fn sockID(s *socket) string = len(s.id) != 0 ? s.id : addrID(s)
-//@ trusted (*socket).ID
-//@   modifies nothing
+// (assumption: the remote address of a connected socket prints as one fixed string;
+// the body - lock, user id first, address as the fallback - is verified)
+//@ iface net.Addr.String in socket.(*socket).ID
+//@   flags pure
+//@   ensures result == addrID(s)
+//@ func (*socket).ID
+//@   property C07
+//@   flags libframe
+//@   modifies lockset
+//@   ensures[locks-restored] sameLocks()
 //@   ensures[id] result == sockID(s)
 
 // ---- C14: lock discipline of the socket's shared fields ----------------------------
